@@ -23,7 +23,7 @@ EXHAUSTIVE = {"quick": False, "thorough": False}
 NSHARDS = {"quick": 16, "thorough": 16}
 THRESHOLDS = {
     "quick": {"repotests:ambient:solver:return?repotests:runs": 50, "c02:unreachable-raised": 1000, "c02:multi-route-pairs": 1000, "c02:adv-mazes": 100, "c02:self-query": 100,
-              "c02:exh-structures": 6541, "c02:from-targeted": 50, "ambient:solver:return": 20, "c02:array-args": 100, "c02:large-mazes": 60, "c02:side>127": 6, "c02:two-lane-mazes": 12, "c02:long-lived-objects": 8, "c02:same-bytes-other-shape": 100, "c02:generator-made-mazes": 50, "c02:generator-made-disconnected": 15,
+              "c02:exh-structures": 6541, "c02:from-targeted": 50, "ambient:solver:return": 20, "c02:array-args": 100, "c02:large-mazes": 60, "c02:side>127": 6, "c02:thin-cyclic-far-queries": 500, "c02:queried-object:TargetedLatticeMaze": 50, "c02:queried-object:stored-route-longer-than-shortest": 40, "c02:two-lane-mazes": 12, "c02:long-lived-objects": 8, "c02:same-bytes-other-shape": 100, "c02:generator-made-mazes": 50, "c02:generator-made-disconnected": 15,
               "hits:find_shortest_path": 1000},
 }
 THRESHOLDS["thorough"] = {**THRESHOLDS["quick"], "c02:exh-structures-13-17-edges": 2 * 8192 + 2 * 131072}
@@ -131,6 +131,27 @@ def run(ctx):
         maze = lib.lattice(cl)
         cells = ref.all_cells(R, C)
         cache = {}
+        own_pair = None
+        if j % 4 in (1, 2, 3):
+            # the same query interface on the other maze kinds: a targeted maze, and solved mazes that carry a route which is NOT the
+            # solver's (a detour through a random third cell, as a model's prediction or a hand-made route would be); the pair of the
+            # object's own endpoints is among the queries
+            s0 = cells[int(rng.integers(len(cells)))]
+            comp0 = sorted(g.component_of(s0))
+            e0 = comp0[int(rng.integers(len(comp0)))]
+            if j % 4 == 1:
+                maze = lib.targeted(cl, s0, e0)
+                ctx.tally("c02:queried-object:TargetedLatticeMaze")
+            else:
+                mid = comp0[int(rng.integers(len(comp0)))]
+                route = g.shortest_path(s0, mid, rng) + g.shortest_path(mid, e0, rng)[1:]
+                if j % 4 == 3:
+                    route = route + g.shortest_path(e0, mid, rng)[1:] + g.shortest_path(mid, e0, rng)[1:]
+                maze = lib.solved(cl, route)
+                ctx.tally("c02:queried-object:SolvedMaze-with-foreign-route")
+                if len(route) - 1 > len(g.shortest_path(s0, e0, rng)) - 1:
+                    ctx.tally("c02:queried-object:stored-route-longer-than-shortest")
+            own_pair = (s0, e0)
         if fam in ("full", "serpentine", "comb", "ring", "spiral", "wall"):
             ctx.tally("c02:adv-mazes")
         npairs = len(cells) ** 2
@@ -141,6 +162,8 @@ def run(ctx):
             ii = rng.choice(npairs, size=m, replace=False)
             pairs = [(cells[int(i) // len(cells)], cells[int(i) % len(cells)]) for i in ii]
             pairs += [(cells[0], cells[-1]), (cells[-1], cells[0]), (cells[0], cells[0])]
+        if own_pair is not None:
+            pairs = [own_pair, (own_pair[1], own_pair[0])] + list(pairs)
         for t, (s, e) in enumerate(pairs):
             arr = (1 + (t // 5) % 5) if (t % 5 == 0) else 0
             if arr:
@@ -227,6 +250,37 @@ def run(ctx):
             res, exc = None, ex
         ctx.ev(); ctx.tally("c02:from-targeted")
         oracles.check_c02(ctx, g, s, e, res, exc, case, dist_cache=cache)
+    # ---- (2c'') long thin mazes WITH cycles (spanning tree + 20 % extra connections), far queries end to end: distances past 127 /
+    # 255 on routes that have alternatives all along (a heuristic that is only slightly off decides differently at every junction)
+    n_thin = 48 if ctx.quick else 480
+    for j in range(n_thin):
+        if not ctx.mine(j):
+            continue
+        rng = ctx.sub_rng("thin-cyclic", j)
+        R, C = int(rng.integers(2, 5)), int(rng.integers(131, 301))
+        _, cl = ref.random_structure(R, C, rng, "tree")
+        for (d, r, c) in ref.lattice_edge_slots(R, C):
+            if not cl[d, r, c] and rng.random() < 0.2:
+                cl[d, r, c] = True
+        if j % 2:
+            t = np.zeros((2, C, R), dtype=bool)
+            t[0], t[1] = cl[1].T, cl[0].T
+            cl, R, C = t, C, R
+        g = Graph(cl)
+        maze = lib.lattice(cl)
+        cache = {}
+        ctx.tally("c02:thin-cyclic-mazes")
+        long_axis = 1 if C > R else 0
+        L = max(R, C)
+        def cell(along, across):
+            return (across, along) if long_axis == 1 else (along, across)
+        for t in range(16):
+            a = cell(int(rng.integers(0, max(2, L // 10))), int(rng.integers(min(R, C))))
+            b = cell(int(rng.integers(L - 3, L)), int(rng.integers(min(R, C))))
+            if t % 2:
+                a, b = b, a
+            _solve(ctx, maze, g, a, b, dict(kind="thin-cyclic", shape=(R, C), cl=cl, s=a, e=b, j=j), cache, as_array=(0, 1, 5, 3, 4)[t % 5])
+            ctx.tally("c02:thin-cyclic-far-queries")
     # ---- (2c') two-lane mazes: the optimal route starts by stepping away from the goal, the straight one pays later.
     # Optimality over distances of 50..1000 (thorough 4000) cells - an inadmissible heuristic only shows beyond a distance ~ 2/eps
     lanes = [(60, 2), (215, 2), (330, 2), (330, 3), (1000, 2), (128, 2), (260, 4)] + ([] if ctx.quick else [(2000, 2), (4000, 2), (700, 5)])
